@@ -1216,7 +1216,7 @@ def check_C17(ctx):
     level = "proof"
     if not model_available(ctx):
         return infra_failure(ctx, level)
-    ok, ob, problems = proof_status(ctx, ["C17_reset", "C17_append", "C17_reslice", "C17_copy", "C17_put", "C17_position_independent", "C17_encode_appends_only", "C17_programs_on_any_buffer", "C17_concrete_refines_abstract", "C17_encode_into_any_buffer"])
+    ok, ob, problems = proof_status(ctx, ["C17_reset", "C17_append", "C17_reslice", "C17_copy", "C17_put", "C17_position_independent", "C17_encode_appends_only", "C17_programs_on_any_buffer", "C17_concrete_refines_abstract", "C17_encode_into_any_buffer", "C17_generated_encode_refines", "C17_marshal_buffer_is_marshal"])
     n = _n(ctx, 600, 20000)
     out = driver_out(ctx, ["bufs", ctx.seed, n], timeout=3000)
     rows = [l.split("\t") for l in out.split("\n") if l.startswith("bufs\t")]
